@@ -814,7 +814,22 @@ fn build_post_form(rng: &mut Rng, cfg_host: &str) -> Req {
     }
     let mut body = Vec::new();
     for (n, v) in &fields {
-        body.extend_from_slice(format!("--{BOUNDARY}\r\nContent-Disposition: form-data; name=\"{n}\"\r\n\r\n").as_bytes());
+        body.extend_from_slice(format!("--{BOUNDARY}\r\nContent-Disposition: form-data; name=\"{n}\"\r\n").as_bytes());
+        match rng.below(24) {
+            // a part that ends with its header block: the next delimiter follows the blank line directly (RFC 2046 allows it)
+            0 => {
+                body.extend_from_slice(b"\r\n");
+                continue;
+            }
+            // further part headers
+            1 => body.extend_from_slice(b"Content-Type: text/plain\r\nX-Part: 1\r\n"),
+            // no blank line at all
+            2 => {
+                continue;
+            }
+            _ => {}
+        }
+        body.extend_from_slice(b"\r\n");
         body.extend_from_slice(v);
         body.extend_from_slice(b"\r\n");
     }
